@@ -120,6 +120,60 @@ def _strip_iter(e):
     return e
 
 
+def lanes_rows(ck, F):
+    ck.rule('G4', 'vertical pass transposition: lane k of a column vector is the sample of row k of the octet, both when reading (extract_column) and when writing back '
+                  '(set_column), k = 0..7; the octet members are rows 0..7 of the 8-row group in order')
+    from ..bitslice import Table
+    from ..loopexpr import Norm, show, stores
+    ok = True
+    en = DB + 'deblock_vert::extract_column'; sn = DB + 'deblock_vert::set_column'
+    try:
+        Te = Table(F, en, paths=False, cast_kinds=True); Ne = Norm(Te)
+        Ts = Table(F, sn, paths=False, cast_kinds=True); Ns = Norm(Ts)
+    except KeyError as e:
+        ck.violation('G4', 'G4 : deblock_vert : helpers', None, 'extract_column / set_column not found (%s)' % e); return
+    got = [show(Ne.n(d[2])) for d in Te.local_defs(0)]
+    want = 'array(%s)' % ', '.join('arrays.%d[i]' % k for k in range(8))
+    if got == [want]: ck.ok('G4', 'extract_column(arrays, i) = [arrays.0[i], .., arrays.7[i]]', where_of(F.body(en)))
+    else: ck.violation('G4', 'G4 : extract_column : lanes', where_of(F.body(en)), 'extract_column returns %s, expected %s' % (got, want))
+    st = sorted((show(t), show(v)) for bb, s_, t, v in stores(Ts, Ns))
+    wants = sorted(('arrays.%d[i]' % k, 'a[%d]' % k) for k in range(8))
+    if st == wants: ck.ok('G4', 'set_column(arrays, i, a): arrays.k[i] = a[k] for k = 0..7', where_of(F.body(sn)))
+    else: ck.violation('G4', 'G4 : set_column : lanes', where_of(F.body(sn)), 'set_column stores %s, expected %s' % (st, wants))
+    # the octet: zip of row_k[2..].chunks_exact_mut(8), row_k = k-th `width` split of the 8-row group, k in order (izip! keeps argument order)
+    b = F.body(DB + 'deblock_vert')
+    calls = rr.find_calls(F, b, 'deblock_vert::extract_column')
+    if not calls:
+        ck.violation('G4', 'G4 : deblock_vert : octet', where_of(b), 'no extract_column call'); return
+    e = expr_of(F, b, calls[0][1]['args'][0])
+    srcs = []
+    def walk(x):
+        if isinstance(x, tuple) and x:
+            if x[0] == 'call' and x[1].endswith('chunks_exact_mut') and len(x) == 4 and x[3] == ('c', 8):
+                srcs.append(x[2]); return
+            for y in x[1:]:
+                if isinstance(y, tuple): walk(y)
+    walk(e)
+    depth = [expr_str(x).count('split_at_mut(') for x in srcs]
+    if depth == list(range(1, 9)):
+        ck.ok('G4', 'octet member k = chunk of row k (the k-th width-split of the 8-row group), k = 0..7 in izip! order', where_of(b, calls[0][0]))
+    else:
+        ck.violation('G4', 'G4 : deblock_vert : octet order', where_of(b, calls[0][0]), 'the octet members are not rows 0..7 in order (split-chain depths %s, expected 1..8)' % depth)
+
+
+def _tuple_members(t):
+    """the 8 members of the (possibly nested, izip-flattened) tuple term; as strings"""
+    from ..loopexpr import show
+    out = []
+    def walk(x):
+        if x[0] == 'agg' and x[1] == 'tuple':
+            for y in x[2:]: walk(y)
+        else:
+            out.append(show(x))
+    walk(t)
+    return out
+
+
 def geometry(ck, F):
     ck.rule('G1', 'horizontal pass: the vector kernel gets the 8-sample chunks of rows edge_y-2, edge_y-1, edge_y, edge_y+1 zipped in that order (A,B,C,D); '
                   'the scalar kernel gets the element-wise zip of the remainders of the same four rows')
@@ -236,6 +290,7 @@ def run(ck, F, tier):
                        '`A - d2` and `D + d2` stay within 0..255 (|d2| <= |A - D|/4), so the final `as u8` is value-preserving']
     kernels(ck, F)
     geometry(ck, F)
+    lanes_rows(ck, F)
     ck.rule('DB1', 'horizontal loop (shared with C16)'); ck.rule('DB2', 'vertical octets (shared with C16)')
     c16.db1_horizontal_loop(ck, F)
     c16.db2_vertical_octets(ck, F)
